@@ -27,6 +27,7 @@ func NewStateListener(next http.Handler, stateListener URLForwardingStateListene
 
 func (s *StateListener) ServeHTTP(rw http.ResponseWriter, req *http.Request) {
 	s.stateListener(req.URL, StateConnected)
+	// the reverse proxy aborts with a panic when copying the response fails midway
+	defer s.stateListener(req.URL, StateDisconnected)
 	s.next.ServeHTTP(rw, req)
-	s.stateListener(req.URL, StateDisconnected)
 }
